@@ -36,11 +36,13 @@ _PATHS = (
 )
 _HOT = [["a"], ["b"], ["c", "a"], ["c", "b"]]  # a prefix-free set that terms hit repeatedly (overlapping leaves)
 PATH = st.one_of(st.sampled_from(_HOT), st.sampled_from(_PATHS))
-PATH0 = st.one_of(PATH, PATH, PATH, PATH, PATH, PATH, PATH, PATH, PATH, st.just([]))
+PATH0 = st.one_of(*([PATH] * 24 + [st.just([])]))
 SHORT = st.sampled_from([[a] for a in LET] * 3 + [[a, b] for a in LET for b in LET])
 SUBP = st.sampled_from([[a] for a in LET] * 4 + [[a, b] for a in LET for b in LET])
 VAL = st.sampled_from([0.0, ["j", 0.0]])
-FLAG = st.sampled_from([["py", True], ["py", False], ["arr", True], ["arr", False], ["arr", True], ["arr", False]])
+FLAG = st.sampled_from(
+    [["py", True], ["py", False], ["arr", True], ["arr", False], ["arr", True], ["arr", False], ["arr", True], ["py", True]]
+)
 
 
 def sel_strategy():
@@ -63,6 +65,11 @@ def sel_strategy():
 
 
 SEL = sel_strategy()
+SSEL = st.one_of(
+    SEL,
+    st.sampled_from([["at", ["a"]], ["at", ["c"]], ["at", ["c", "a"]], ["at", ["...", "a"]], ["at", ["b"]]]),
+    st.sampled_from([["at", ["a"]], ["at", ["c"]], ["at", ["c", "a"]], ["at", ["...", "b"]], ["at", ["b"]]]).map(lambda t: ["not", t]),
+)
 # selections that split the few addresses of an index-level case more often than random terms do
 VSEL = st.one_of(
     SEL,
@@ -86,9 +93,35 @@ def _plain_pairs(unique):
     return st.lists(st.tuples(key, item).map(list), min_size=1, max_size=3, **kw)
 
 
-def _d_term(pairs_strategy, hows=("d", "kw", "fm")):
+def _flat(key, item):
+    key = [key] if isinstance(key, str) else list(key)
+    if isinstance(item, list) and item and item[0] == "dict":
+        out = []
+        for k, v in item[1]:
+            out += _flat(key + ([k] if isinstance(k, str) else list(k)), v)
+        return out
+    return [tuple(key)]
+
+
+def _d_term(pairs_strategy, hows=("d", "kw", "fm"), dups=False):
     def mk(x):
         how, P, D = x
+        if how != "fm":  # python dict keys are unique
+            seen, out = set(), []
+            for k, v in D:
+                if str(k) not in seen:
+                    seen.add(str(k))
+                    out.append([k, v])
+            D = out
+        if not dups:  # the same address twice is a case of its own (from_mapping_keeps_first)
+            seen, out = set(), []
+            for k, v in D:
+                fl = set(_flat(k, v)) if not (isinstance(v, list) and v and v[0] == "chm") else set()
+                if fl & seen:
+                    continue
+                seen |= fl
+                out.append([k, v])
+            D = out
         if how == "kw":
             D = [[k if isinstance(k, str) else k[0], v] for k, v in D]
             seen, out = set(), []
@@ -115,9 +148,8 @@ def scalar_terms():
         _d_term(_plain_pairs(True), ("d", "kw", "fm")),
         _d_term(_plain_pairs(True), ("fm",)),
         st.one_of(
-            _d_term(_plain_pairs(False), ("fm",)),
-            _d_term(_plain_pairs(False), ("fm",)),
-            _d_term(_plain_pairs(False), ("fm",)),
+            _d_term(_plain_pairs(False), ("fm",), dups=True),
+            _d_term(_plain_pairs(False), ("fm", "d"), dups=True),
             st.sampled_from([["empty", "empty"], ["empty", "n"]]),
         ),
     )
@@ -151,7 +183,7 @@ def scalar_terms():
             switch,
             st.tuples(ch, FLAG).map(lambda x: ["mask", x[0], x[1]]),
             st.tuples(ch, FLAG).map(lambda x: ["mask", x[0], x[1]]),
-            st.tuples(ch, SEL, st.sampled_from(["chm", "sel"])).map(lambda x: ["filter", x[0], x[1], x[2]]),
+            st.tuples(ch, SSEL, st.sampled_from(["chm", "sel"])).map(lambda x: ["filter", x[0], x[1], x[2]]),
             st.tuples(ch, SUBP, st.sampled_from(["call", "splat", "gs", "gs2", "chain"])).map(
                 lambda x: ["sub", x[0], x[1], x[2]]
             ),
@@ -186,15 +218,16 @@ def vector_case(draw):
     one = st.tuples(path, st.integers(0, 2), VAL, st.sampled_from(["int", "arr"]), st.sampled_from(["set", "entry"])).map(
         lambda x: ["one", x[0], j0, x[1], x[2], x[3], x[4]]
     )
+    vecflag = st.lists(st.booleans(), min_size=cm.N, max_size=cm.N).map(lambda v: ["vec", v])
     if pure_full:
-        atom = full
+        vf = st.tuples(full, vecflag).map(lambda x: ["mask", x[0], x[1]])
+        atom = st.one_of(full, vf) if draw(st.booleans()) else st.one_of(vf, vf, vf, full)
     elif allow_full:
         atom = st.one_of(full, sparse, sparse, one)
     else:
         atom = st.one_of(sparse, sparse, one)
 
     flags = [["py", True], ["py", False], ["arr", True], ["arr", False], ["arr", True], ["arr", False]]
-    vecflag = st.lists(st.booleans(), min_size=cm.N, max_size=cm.N).map(lambda v: ["vec", v])
     flag = st.one_of(st.sampled_from(flags), vecflag, vecflag) if pure_full else st.sampled_from(flags)
 
     def ext(ch):
@@ -211,6 +244,7 @@ def vector_case(draw):
             st.tuples(ch, flag).map(lambda x: ["mask", x[0], x[1]]),
             st.tuples(ch, VSEL, st.sampled_from(["chm", "sel"])).map(lambda x: ["filter", x[0], x[1], x[2]]),
             st.tuples(ch, ch, VSEL).map(lambda x: ["filter", ["or", "|", x[0], x[1]], x[2], "chm"]),
+            *([st.tuples(ch, vecflag).map(lambda x: ["mask", x[0], x[1]])] * (2 if pure_full else 0)),
         )
 
     t = draw(st.recursive(atom, ext, max_leaves=5))
@@ -223,10 +257,8 @@ def case_strategy(ctx=None, jit_every=12):
     s = scalar_terms().map(lambda t: {"world": "s", "term": cm.renumber(t)})
     v = vector_case().map(lambda t: {"world": "v", "term": cm.renumber(t)})
 
-    jit = st.sampled_from([False] * (jit_every // 2) + [True] + [False] * (jit_every - jit_every // 2 - 1))
-
     def with_flags(c):
-        return st.tuples(jit, st.integers(0, 2**16)).map(lambda x: dict(c, jit=x[0], pick=x[1]))
+        return st.integers(0, 2**16).map(lambda x: dict(c, jit=(((x * 2654435761) >> 9) % jit_every == 3), pick=x))
 
     return st.one_of(s, s, s, v, v).flatmap(with_flags)
 
@@ -704,7 +736,7 @@ def run(ctx):
             ctx.note_case(case, nontrivial=(nt and r in ("ok", "raise")), classes=classes + ["outcome:" + str(r or "violation")])
 
     n = ctx.pick(125, 950)
-    ctx.run_hypothesis(case_strategy(ctx, jit_every=ctx.pick(25, 12)), chk, n, salt="terms")
+    ctx.run_hypothesis(case_strategy(ctx, jit_every=ctx.pick(10, 8)), chk, n, salt="terms")
 
 
 def replay(ctx, case):
